@@ -10,6 +10,8 @@ ASSUMPTIONS = [
     'on seeded random arrays - bounded)',
     'A-lapack: svd/qr/rq/solve/inv/eig/expm satisfy their mathematical definitions; overwrite_a may clobber its '
     'argument buffer and nothing else',
+    'A-basis: user-supplied basis functions (regression.py) are total maps from a state vector to one real number without side effects; '
+    'scipy.linalg.lstsq returns a solution with one entry per column of the system',
     'A-python: subset semantics of vt/e1/symexec.py (CPython evaluation order, no operator overloading besides TT)',
     'A-solver: soundness of z3 5.1 (the only solver used; `unknown` is never a verdict)',
     'A-alloc: allocation model of E1 - object/list/buffer identities are integers handed out by a monotone watermark; every identity '
